@@ -506,7 +506,18 @@ pub fn run_inputs(opts: &Opts, only: Option<Vec<Vec<u8>>>) -> Run {
                 // (the streaming and vec front ends of this engine cap what they collect; compare them on outputs below the caps)
                 let capped = (o.what.starts_with("StreamingDecoder") && r.len() >= (64 << 20)) || (o.what == "decode_from_to chunks" && r.len() >= (64 << 20));
                 if o.what != "loop UptoBytes(4096)+collect" && !capped && out != r {
-                    run.fail("C01", "differs_from_libzstd", format!("[{}] {} produced {} bytes, libzstd {} bytes / different content", label, o.what, out.len(), r.len()), replay.clone());
+                    let certain = expected.is_some() || label.starts_with("valid") || label.starts_with("corpus");
+                    if certain {
+                        run.fail("C01", "differs_from_libzstd", format!("[{}] {} produced {} bytes, libzstd {} bytes / different content", label, o.what, out.len(), r.len()), replay.clone());
+                    } else if bytes.len() < 40_000 {
+                        // a MUTATED frame that both lenient decoders accept, with different results (no checksum to tell):
+                        // only a violation if the frame is valid, which the strict RFC Spec decides (expected answer: reject)
+                        if o.what == "decode_blocks(All)+collect" {
+                            run.case(format!("spec frame {}", hex(bytes)), "err".into());
+                            run.cond_fail("C01", "differs_from_libzstd_spec_accepts", format!("[{}] {} produced {} bytes, libzstd {} bytes / different content, on a frame the RFC Spec accepts", label, o.what, out.len(), r.len()), replay.clone());
+                        }
+                        run.stat("differs_from_libzstd_on_mutated_frame_referred_to_spec", 1);
+                    }
                 }
             }
             if let (None, Some(r), None) = (&o.output, &reference, &o.panic) {
@@ -586,10 +597,13 @@ pub fn run_inputs(opts: &Opts, only: Option<Vec<Vec<u8>>>) -> Run {
             if bytes.len() < 60_000 && r.len() < 300_000 && (idx % 2 == 0 || expected.is_some()) {
                 let t = |n| Some(Truth { original: r.clone(), frame_len: n, complete: true, has_checksum: bytes.len() > 4 && bytes[4] & 4 != 0 });
                 let flen = outs.first().map(|_| bytes.len()).unwrap_or(0);
+                // (a mutated frame that the lenient reference decoder still accepts is not certainly valid: the Spec decides;
+                // when the two lenient decoders even disagree on its content there is no truth to compare with at all)
+                let lenient = expected.is_none() && !label.starts_with("valid") && !label.starts_with("corpus");
+                let agree = outs.iter().find(|o| o.what == "decode_blocks(All)+collect").and_then(|o| o.output.as_ref()).map(|o| o == r).unwrap_or(false);
                 let mut p = Prog::new(&mut run, label);
-                // (a mutated frame that the lenient reference decoder still accepts is not certainly valid: the Spec decides)
-                p.lenient_truth = expected.is_none() && !label.starts_with("valid");
-                p.set_src(bytes.clone(), vec![], t(flen));
+                p.lenient_truth = lenient;
+                p.set_src(bytes.clone(), vec![], if lenient && !agree { None } else { t(flen) });
                 if idx % 4 < 2 {
                     drive_blocks(&mut p, &mut rng, window as usize);
                 } else {
